@@ -431,7 +431,11 @@ func ParseURI(uri SIPStr, puri *PsipURI) (ErrorURI, int) {
 				}
 			case '0', '1', '2', '3', '4', '5', '6', '7', '8', '9':
 				// in case this might be the port no, compute it
-				portNo = portNo*10 + int(c-'0')
+				if portNo <= 65535 {
+					// stop accumulating once out of range (a longer digit
+					// string would wrap around)
+					portNo = portNo*10 + int(c-'0')
+				}
 			case '[', ']', ':':
 				return ErrURIBadChar, i
 			default:
@@ -504,7 +508,11 @@ func ParseURI(uri SIPStr, puri *PsipURI) (ErrorURI, int) {
 		case uPort:
 			switch c {
 			case '0', '1', '2', '3', '4', '5', '6', '7', '8', '9':
-				portNo = portNo*10 + int(c-'0')
+				if portNo <= 65535 {
+					// stop accumulating once out of range (a longer digit
+					// string would wrap around)
+					portNo = portNo*10 + int(c-'0')
+				}
 			case ';':
 				puri.Port.Set(s, i)
 				if portNo > 65535 {
